@@ -380,6 +380,179 @@ pub fn run_barrier(seed: u64, mut ov: impl FnMut(&mut engine::Cfg)) -> ! {
 }
 
 // ------------------------------------------------------------------------------------------------
+// barrier with cancelled waiters
+// ------------------------------------------------------------------------------------------------
+//
+// Each generation has n - 1 lasting parties and one victim, a fresh coroutine that arrives once
+// and is cancelled at a random moment after it has announced its arrival. A cancelled waiter has
+// arrived (it is counted) and the Condvar makes it pass on a notification that reached it while
+// it was leaving - a spurious wake-up for a party that already waits for the next generation.
+// Everything runs on ONE worker, all parties are coroutines and none of them sleeps (a coroutine
+// whose timer expires is resumed on the timer thread, in parallel with the worker): the barrier's
+// internal mutex is then never contended (nobody holds it across a switch), so a victim cannot be
+// cancelled while it queues for that mutex and is counted for certain - the number of arrivals
+// of each generation is known exactly. Victim g + 1 is spawned by the party that completes the
+// returns of generation g, so it belongs to generation g + 1 without having to wait.
+
+#[derive(Debug)]
+struct ParamsV {
+    rt: RtCfg,
+    n: usize,
+    gens: usize,
+    /// yield points of each lasting party before each of its waits
+    dally: Vec<u32>,
+    /// per generation: victim's yield points before it arrives, controller's between the
+    /// victim's announcement and the cancel
+    victims: Vec<(u32, u32)>,
+}
+
+fn gen_v(seed: u64) -> ParamsV {
+    let mut r = gen_rng(seed);
+    let mut rt = RtCfg::gen(&mut r, 1);
+    rt.workers = 1;
+    let n = *r.pick(&[2usize, 2, 3]);
+    let gens = r.range(2, 4) as usize;
+    // a party that does not yield between two generations is back in the queue before a
+    // cancelled victim of the previous generation has run its way out
+    let dally = (0..n - 1).map(|_| *r.pick(&[0u32, 0, 0, 1, 2, 5])).collect();
+    let victims = (0..gens).map(|_| (*r.pick(&[0u32, 0, 1, 3]), r.below(40) as u32)).collect();
+    ParamsV { rt, n, gens, dally, victims }
+}
+
+#[allow(clippy::declare_interior_mutable_const)]
+const ZB: std::sync::atomic::AtomicBool = std::sync::atomic::AtomicBool::new(false);
+static V_ANNOUNCED: [std::sync::atomic::AtomicBool; 8] = [ZB; 8];
+static ALL_ARRIVED: [std::sync::atomic::AtomicBool; 8] = [ZB; 8];
+static V_RETURNED: [AtomicU32; 8] = [ZU; 8];
+static LASTING_RETURNED: AtomicU32 = AtomicU32::new(0);
+
+type VictimSlots = Arc<std::sync::Mutex<Vec<Option<Actor>>>>;
+
+fn spawn_victim(g: usize, n: u32, dally: u32, b: &Arc<Barrier>, slots: &VictimSlots) {
+    let b = b.clone();
+    let a = rt::spawn_actor(Ctx::Co, &format!("victim{}", g), move || {
+        rt::dally(dally);
+        if ARRIVED[g].fetch_add(1, Ordering::Relaxed) + 1 == n {
+            rt::set_flag(&ALL_ARRIVED[g]);
+        }
+        rt::set_flag(&V_ANNOUNCED[g]);
+        let r = b.wait();
+        // not cancelled in time: an ordinary party
+        if ARRIVED[g].load(Ordering::Relaxed) < n {
+            violation(&format!("victim{}: Barrier::wait returned from generation {} before all {} parties had arrived", g, g, n));
+        }
+        if r.is_leader() {
+            LEADERS[g].fetch_add(1, Ordering::Relaxed);
+        }
+        V_RETURNED[g].store(1, Ordering::Relaxed);
+    });
+    slots.lock().unwrap()[g] = Some(a);
+}
+
+pub fn run_barrier_victims(seed: u64, mut ov: impl FnMut(&mut engine::Cfg)) -> ! {
+    let p = gen_v(seed);
+    let mut cfg = swarm_cfg(seed, &swarm());
+    ov(&mut cfg);
+    engine::init(cfg);
+    engine::set_extra("params", engine::json_str(&format!("{:?}", p)));
+    rt::boot(&p.rt);
+    engine::set_diag(|| format!("in flight: {}", OPS.pending()));
+
+    let b = Arc::new(Barrier::new(p.n));
+    let (n, gens) = (p.n as u32, p.gens);
+    let slots: VictimSlots = Arc::new(std::sync::Mutex::new((0..gens).map(|_| None).collect()));
+    let vdally: Arc<Vec<u32>> = Arc::new(p.victims.iter().map(|v| v.0).collect());
+    let mut actors: Vec<Actor> = Vec::new();
+    for (pi, dally) in p.dally.iter().cloned().enumerate() {
+        let b = b.clone();
+        let name = format!("party{}", pi);
+        let nm = name.clone();
+        let (slots, vdally) = (slots.clone(), vdally.clone());
+        actors.push(rt::spawn_actor(Ctx::Co, &name, move || {
+            for g in 0..gens {
+                rt::dally(dally);
+                let o = OPS.begin(format!("{} Barrier::wait gen {}", nm, g));
+                if ARRIVED[g].fetch_add(1, Ordering::Relaxed) + 1 == n {
+                    rt::set_flag(&ALL_ARRIVED[g]);
+                }
+                let r = b.wait();
+                o.done();
+                let a = ARRIVED[g].load(Ordering::Relaxed);
+                if a < n {
+                    violation(&format!(
+                        "{}: Barrier::wait returned from generation {} when only {} of {} parties had arrived (one of the earlier parties was cancelled while it waited)",
+                        nm, g, a, n
+                    ));
+                }
+                if r.is_leader() {
+                    LEADERS[g].fetch_add(1, Ordering::Relaxed);
+                }
+                RETURNED[g].fetch_add(1, Ordering::Relaxed);
+                // whoever completes the returns of this generation brings in the next victim
+                if LASTING_RETURNED.fetch_add(1, Ordering::Relaxed) + 1 == (n - 1) * (g as u32 + 1) && g + 1 < gens {
+                    spawn_victim(g + 1, n, vdally[g + 1], &b, &slots);
+                }
+            }
+        }));
+    }
+    spawn_victim(0, n, vdally[0], &b, &slots);
+    // the controller cancels each victim some yield points after it has announced its arrival
+    let ats: Vec<u32> = p.victims.iter().map(|v| v.1).collect();
+    let slots2 = slots.clone();
+    let ctl = rt::spawn_actor(Ctx::Thread, "ctl", move || {
+        for (g, at) in ats.into_iter().enumerate() {
+            rt::wait_flag(&V_ANNOUNCED[g], usize::MAX);
+            let co = loop {
+                let co = slots2.lock().unwrap()[g].as_ref().map(|a| a.co.as_ref().unwrap().coroutine().clone());
+                match co {
+                    Some(co) => break co,
+                    None => engine::yield_point(),
+                }
+            };
+            // every other victim: aim at the moment the last party arrives (its notify_all
+            // races with the cancel for the parked victim)
+            let mut at = at;
+            if g % 2 == 1 {
+                rt::wait_flag(&ALL_ARRIVED[g], usize::MAX);
+                at %= 12;
+            }
+            for _ in 0..at {
+                engine::yield_point();
+            }
+            unsafe { co.cancel() };
+        }
+    });
+    let deadline = engine::now() + 60_000_000;
+    engine::set_vt_limit(deadline + 1_000_000);
+    actors.push(ctl);
+    rt::await_actors(&actors, deadline);
+    let mut victims: Vec<Actor> = slots.lock().unwrap().iter_mut().filter_map(|s| s.take()).collect();
+    if victims.len() != gens {
+        violation(&format!("harness: {} of {} victims were spawned", victims.len(), gens));
+    }
+    rt::await_actors(&victims, deadline);
+    for a in actors.iter_mut() {
+        rt::expect_end(a, false);
+    }
+    for a in victims.iter_mut() {
+        rt::expect_end(a, true);
+    }
+    for g in 0..gens {
+        let l = LEADERS[g].load(Ordering::Relaxed);
+        let vr = V_RETURNED[g].load(Ordering::Relaxed);
+        // a victim that left by the cancel cannot have been the leader; the leader is the last
+        // party to arrive and does not wait
+        if l != 1 {
+            violation(&format!("generation {} had {} leaders (victim returned normally: {})", g, l, vr == 1));
+        }
+        if RETURNED[g].load(Ordering::Relaxed) != n - 1 {
+            violation(&format!("generation {}: {} of {} lasting parties returned", g, RETURNED[g].load(Ordering::Relaxed), n - 1));
+        }
+    }
+    engine::finish_ok()
+}
+
+// ------------------------------------------------------------------------------------------------
 // wait group
 // ------------------------------------------------------------------------------------------------
 
